@@ -157,7 +157,7 @@ theorem exec_not_runs (sv : Server) (id : String) (now : Int) (h : ¬ execRuns (
   split; · rfl
   next h1 h2 h3 h4 =>
     exfalso; apply h
-    refine ⟨by simpa using h1, h2, by simpa using h3, by simpa using h4⟩
+    refine ⟨by simpa using h1, h2, by simpa using h4, by simpa using h3⟩
 
 /-- the store after a step is determined by the closures it ran, each started on the store its
     predecessor left -/
